@@ -369,6 +369,12 @@ local function _sandbox_getmetatable(obj)
         end
         return { __index = copy }
     end
+    -- All Python objects wrapped into the Lua state share ONE metatable,
+    -- the dispatch table of the Lua-Python bridge: only tables have
+    -- metatables as far as modules are concerned.
+    if _orig_type(obj) ~= "table" then
+        return nil
+    end
     return _orig_getmetatable(obj)
 end
 
